@@ -31,6 +31,9 @@ func (d *devmodOwnerModule) HandleInfo(ctx context.Context, messageName string, 
 		if err := cbor.NewDecoder(messageBody).Decode(&numModules); err != nil {
 			return err
 		}
+		if numModules < 0 || numModules >= cbor.MaxArrayDecodeLength {
+			return fmt.Errorf("invalid devmod module count: %d", numModules)
+		}
 		d.Modules = make([]string, numModules)
 		return nil
 	case "modules":
@@ -73,6 +76,9 @@ func (d *devmodOwnerModule) parseModules(messageBody io.Reader) error {
 			chunk.Start = idx
 		}
 
+		if chunk.Start+chunk.Len > len(d.Modules) {
+			return fmt.Errorf("invalid devmod module chunk: exceeds the announced number of modules")
+		}
 		copy(d.Modules[chunk.Start:chunk.Start+chunk.Len], chunk.Modules)
 	}
 }
